@@ -77,6 +77,10 @@ CHECKS = {
                 text="for every value tree and every mutable location of its SDK v1 / v2 representation, in every input and output scenario, mutating that location after the call returns leaves every later read unchanged, and returned structures are not changed by later writes",
                 note="locations are enumerated structurally (pointers, bytes, set members, list elements, map entries, v2 member structs); one fresh client per (scenario, tree, location)",
                 ref="DESIGN.md 3/C14"),
+    "C16": dict(engine="E2", technique=E2 + " against the rule table of the statement",
+                text="every reserved word x letter case x bare-name position is rejected and benign/aliased names are not; every supplied-vs-used placeholder subset relation, every key-condition shape, every batch size 1..27 and malformed write request is judged by the rule table, in both SDK clients",
+                note="573 words pinned from the pinned commit; placeholder universe {#a,#ab,#b} x {:a,:ab,:b}; two recorded findings (placeholder validation by substring, key-condition shape not validated)",
+                ref="DESIGN.md 3/C16"),
 }
 
 PENDING = {}
